@@ -17,7 +17,10 @@ conditional expressions, tuple assignments, loops over literal tables.  `Normali
   I5  `for t in <literal tuple/list>` (also a local bound once to such a literal, also under enumerate) without break / continue is
       unrolled with the targets substituted;
   I6  `s.update((a, b))`, `s |= {a, b}` become `s.add(a); s.add(b)`; `l.extend([a, b])`, `l += [a, b]` become appends;
-  I7  `x = next((e for t in it if c), d)` becomes the search loop `for t in it: if c: x = e; break` with `else: x = d`.
+  I7  `x = next((e for t in it if c), d)` becomes the search loop `for t in it: if c: x = e; break` with `else: x = d`;
+  I8  a closure defined once in each branch of an `if` becomes one closure that tests the condition itself;
+  I9  assignment expressions in conditions / values become plain assignments placed before the statement;
+  after an inlining, tests decided by the substituted arguments (`None is None`, `<closure> is None`) are folded.
 
 Everything is purely syntactic on copies of the loader's trees: nothing is imported or executed.  When a helper cannot be inlined
 soundly (varargs, returns in unsupported positions, recursion) the call is left in place: the rule then sees an unknown call and
@@ -257,6 +260,100 @@ class Normaliser:
         ast.fix_missing_locations(new)
         return relink(new)
 
+    # ------------------------------------------------------------------ tests decided by substitution of arguments
+    def _fold_none_tests(self, stmts, local_defs):
+        """after the arguments of an inlined helper are substituted: `None is None`, `<closure> is None`, `<lambda> is None` are decided and
+        the `if` they control is replaced by the branch that is taken"""
+        def decide(t):
+            if isinstance(t, ast.UnaryOp) and isinstance(t.op, ast.Not):
+                d = decide(t.operand)
+                return None if d is None else (not d)
+            if isinstance(t, ast.Constant) and isinstance(t.value, bool):
+                return t.value
+            if isinstance(t, ast.Compare) and len(t.ops) == 1 and isinstance(t.ops[0], (ast.Is, ast.IsNot)) \
+                    and isinstance(t.comparators[0], ast.Constant) and t.comparators[0].value is None:
+                l = t.left
+                val = None
+                if isinstance(l, ast.Constant):
+                    val = l.value is None
+                elif isinstance(l, ast.Lambda) or (isinstance(l, ast.Name) and l.id in local_defs):
+                    val = False
+                if val is not None:
+                    return val if isinstance(t.ops[0], ast.Is) else (not val)
+            return None
+        def simplify(t):
+            """(decided value | None, simplified test)"""
+            d = decide(t)
+            if d is not None:
+                return d, t
+            if isinstance(t, ast.BoolOp):
+                is_or = isinstance(t.op, ast.Or)
+                keep = []
+                for v in t.values:
+                    dv, sv = simplify(v)
+                    if dv is None:
+                        keep.append(sv)
+                    elif dv == is_or:
+                        return is_or, t          # `True or ...` / `False and ...` (operands before it were undecided but pure tests)
+                if not keep:
+                    return (not is_or), t
+                return None, (keep[0] if len(keep) == 1 else ast.BoolOp(op=t.op, values=keep))
+            if isinstance(t, ast.UnaryOp) and isinstance(t.op, ast.Not):
+                dv, sv = simplify(t.operand)
+                return (None if dv is None else (not dv)), ast.UnaryOp(op=ast.Not(), operand=sv)
+            return None, t
+        out = []
+        for st in stmts:
+            if isinstance(st, ast.If):
+                d, t2 = simplify(st.test)
+                if d is not None:
+                    out.extend(st.body if d else st.orelse)
+                    continue
+                st.test = t2
+            out.append(st)
+        return out
+
+    # ------------------------------------------------------------------ I9: assignment expressions
+    def _hoist_walrus(self, st):
+        """`if (x := e) is None or (y := f) ...:`  ->  `x = e; y = f; if x is None or y ...:`  (analysis normal form: the bindings become
+        plain assignments in evaluation order; a short-circuited binding is still listed - the rules only read what a name denotes)"""
+        if isinstance(st, ast.If):
+            host, fld = st, "test"
+        elif isinstance(st, (ast.Assign, ast.AugAssign, ast.Return, ast.Expr)) and getattr(st, "value", None) is not None:
+            host, fld = st, "value"
+        else:
+            return None
+        e = getattr(host, fld)
+        found = []
+
+        class T(ast.NodeTransformer):
+            def visit_NamedExpr(self, n):
+                n.value = self.visit(n.value)
+                found.append((n.target.id, n.value))
+                return ast.Name(id=n.target.id, ctx=ast.Load())
+
+            def visit_Lambda(self, n):
+                return n
+
+            def visit_ListComp(self, n):
+                return n
+
+            def visit_GeneratorExp(self, n):
+                return n
+
+            def visit_SetComp(self, n):
+                return n
+
+            def visit_DictComp(self, n):
+                return n
+        if not any(isinstance(n, ast.NamedExpr) for n in ast.walk(e)):
+            return None
+        new_e = T().visit(e)
+        if not found:
+            return None
+        setattr(host, fld, new_e)
+        return [assign(nm, v) for nm, v in found] + [st]
+
     # ------------------------------------------------------------------ I8: one closure per branch of an if
     def _merge_conditional_defs(self, stmts, fn):
         """`if c: def f(a): A   else: def f(a): B`  ->  `def f(a): if c: A else: B` after the if (same parameters, c not reassigned)"""
@@ -311,6 +408,9 @@ class Normaliser:
         r = self._expand_next(st)
         if r is not None:
             return self._again(r, st)
+        r = self._hoist_walrus(st)
+        if r is not None:
+            return self._again(r[:-1], st) + [r[-1]]
         return [st]
 
     def _again(self, new_stmts, ref):
@@ -390,6 +490,13 @@ class Normaliser:
         if isinstance(st, ast.AugAssign) and isinstance(st.value, ast.IfExp):
             v = st.value
             mk = lambda val: ast.AugAssign(target=store(st.target), op=st.op, value=sym.clone(val))
+            return [ast.If(test=sym.clone(v.test), body=[mk(v.body)], orelse=[mk(v.orelse)])]
+        if isinstance(st, ast.Expr) and isinstance(st.value, ast.Call) and isinstance(st.value.func, ast.Attribute) \
+                and isinstance(st.value.func.value, ast.IfExp):
+            # (a if c else b).m(args)  ->  if c: a.m(args) else: b.m(args)
+            c, v = st.value, st.value.func.value
+            mk = lambda recv: ast.Expr(value=ast.Call(func=ast.Attribute(value=sym.clone(recv), attr=c.func.attr, ctx=ast.Load()),
+                                                      args=[sym.clone(a) for a in c.args], keywords=[sym.clone(k) for k in c.keywords]))
             return [ast.If(test=sym.clone(v.test), body=[mk(v.body)], orelse=[mk(v.orelse)])]
         if isinstance(st, ast.Return) and isinstance(st.value, ast.IfExp):
             v = st.value
@@ -890,7 +997,12 @@ class Normaliser:
             last = new_body.pop()
             tail = [ast.Assign(targets=st.targets, value=last.value, lineno=st.lineno, col_offset=0)]
         out = set_pos(new_body, st) + tail
-        return map_blocks(out, self._pre)
+        out = map_blocks(out, self._pre)
+        out = map_blocks(out, lambda stmts: self._fold_none_tests(stmts, local_defs))
+        if depth > 1:
+            # arguments that are closures of the caller (a predicate, a callback) become direct calls after substitution: expand them too
+            out = self._inline_block(out, local_defs, stack, depth - 1)
+        return out
 
     def _elim_returns(self, stmts, res):
         """replace `return e` by `res = e` and restructure so that nothing executes after it.  -> (statements, always_returns)"""
